@@ -95,7 +95,7 @@ def main():
                 a = run(["git", "apply", "--3way", "--whitespace=nowarn", patch], cwd=wt)
             if a.returncode != 0:
                 print(sid, "PATCH-DOES-NOT-APPLY", a.stderr.strip()[:200])
-                run(["git", "checkout", "--", "."], cwd=wt)
+                run(["git", "reset", "-q", "--hard"], cwd=wt)  # a failed 3-way apply leaves conflict markers
                 continue
             b = run(["go", "build", "./..."], cwd=wt)
             base = run(["python3", os.path.join(VERIF, "tools", "baseline.py"), wt])
